@@ -3,107 +3,149 @@ CHECK = {'lean_module': 'MidnightZK.Props.C01',
  'translators': [],
  'level': 'proof',
  'technique': 'Lean 4 proofs over executable models of the prover/verifier control flow: Fiat-Shamir schedule agreement for '
-              'every constraint-system shape and proving configuration; order of the y-combination (prover loop nest = verifier '
-              'iterator chain); expression-graph compiler correctness; quotient split/blind/recombine; row-level completeness of '
-              'the permutation, lookup (incl. a full specification of permute_expression_pair for every HashMap iteration order) '
-              "and trash arguments as the prover constructs them; and the ASSEMBLY over Mathlib's Polynomial for an arbitrary "
-              'field with a primitive n-th root of unity: X^n-1 = prod (X-w^i), divisibility of the y-combination of identities '
-              "that vanish on the domain, existence/degree of the quotient, the prover's pieces recombine to h(x), the "
-              "verifier's expected_h_eval equals h(x) off the domain, l_i_range is the barycentric formula, l_0/l_last/l_blind "
-              "and the verifier's own instance evaluations are evaluations of the interpolating polynomials. Models tied to the "
-              "code by recording real transcripts, the compiled graphs, the verifier's identity log (values, y, xn, "
-              'expected_h_eval), the hooked instance evaluations, EvaluationDomain::l_i_range and the hooked Lagrange vectors of '
-              "the prover's arguments on generated circuits",
+              'every constraint-system shape and proving configuration; order of the y-combination (prover loop nest = '
+              'verifier iterator chain); expression-graph compiler correctness; quotient split/blind/recombine; row-level '
+              'completeness of the permutation, lookup (incl. a full specification of permute_expression_pair for every '
+              "HashMap iteration order) and trash arguments as the prover constructs them; and the ASSEMBLY over Mathlib's "
+              'Polynomial for an arbitrary field with a primitive n-th root of unity: X^n-1 = prod (X-w^i), divisibility of '
+              "the y-combination of identities that vanish on the domain, existence/degree of the quotient, the prover's "
+              "pieces recombine to h(x), the verifier's expected_h_eval equals h(x) off the domain, l_i_range is the "
+              "barycentric formula, l_0/l_last/l_blind and the verifier's own instance evaluations are evaluations of the "
+              'interpolating polynomials. Models tied to the code by recording real transcripts, the compiled graphs, the '
+              "verifier's identity log (values, y, xn, expected_h_eval), the hooked instance evaluations, "
+              "EvaluationDomain::l_i_range and the hooked Lagrange vectors of the prover's arguments on generated circuits; "
+              'the expression compiler is driven through EVERY branch of add_expression on both operand positions by a table '
+              'of expression shapes (family gate kind Shapes) and the degree bookkeeping (required_degree / degree()) is '
+              'proved to cover every identity class and exercised by a mixed-degree two-column lookup_any that is the only '
+              'constraint of the top degree',
  'rule': 'circuit-family members (random gate kinds/degrees/rotations, lookups, copy constraints, phases, unblinded columns, '
          'trash arguments) and C01-owned stress shapes (gate degree 3..9 = 2..8 quotient pieces, unblinded column queried at '
          '-1/0/+1, third-phase column never queried, lookup_any into an advice column and into an instance column, 3 and 4 '
-         'proofs with 2 committed instance columns, k from the minimum the shape supports) x 1..4 proofs x 0..2 committed + 0..2 '
-         'plain instance columns x k x {blake2b, poseidon}; one case = one real prove+verify; request lines carry the dumped '
-         "constraint-system shape (schedule/prooflen/graph/idcount), the verifier's identity values with y and x^n (hfold -> "
-         "expected_h_eval), domain + x + rotation lists (lirange: the verifier's two windows, random rotations beyond +-n, "
-         'multiples of n; levals), each plain instance column with its query rotation (insteval -> the value the real verifier '
-         'computed) or, for the argument vectors (blake2b runs, k <= 7 quick / 8 thorough, first two proofs), the REAL table of '
-         'the proof with its blinding rows, the sigma labels of the proving key and the challenges read off the transcript '
-         "(argtable), followed by permz / lookupcomp / lookupperm / lookupz / trashvec (model recomputes the prover's vectors) "
-         "and permrules / lookuprules / trashrules (the verifier's identities read row by row on the logged vectors and on "
-         'vectors with one altered entry); lookupperm-failure = witnesses with a lookup input outside the table; distinct = '
-         'distinct request lines; all are non-trivial (real proofs)',
+         'proofs with 2 committed instance columns, k from the minimum the shape supports) x 1..4 proofs x 0..2 committed + '
+         '0..2 plain instance columns x k x {blake2b, poseidon}; one case = one real prove+verify; request lines carry the '
+         "dumped constraint-system shape (schedule/prooflen/graph/idcount), the verifier's identity values with y and x^n "
+         "(hfold -> expected_h_eval), domain + x + rotation lists (lirange: the verifier's two windows, random rotations "
+         'beyond +-n, multiples of n; levals), each plain instance column with its query rotation (insteval -> the value the '
+         'real verifier computed) or, for the argument vectors (blake2b runs, k <= 7 quick / 8 thorough, first two proofs), '
+         'the REAL table of the proof with its blinding rows, the sigma labels of the proving key and the challenges read off '
+         'the transcript (argtable), followed by permz / lookupcomp / lookupperm / lookupz / trashvec (model recomputes the '
+         "prover's vectors) and permrules / lookuprules / trashrules (the verifier's identities read row by row on the logged "
+         'vectors and on vectors with one altered entry); lookupperm-failure = witnesses with a lookup input outside the '
+         'table; distinct = distinct request lines; all are non-trivial (real proofs); EXTENDED FAMILY '
+         '(harness/common/src/family.rs, new enum variants used by C01/C02 only): GateKind::Shapes(g) = s*(sum of the shapes '
+         'of group g of a 36-entry table - a2) covering Constant(c)*e and e*Constant(c) for c in {0,1,2,3,-1} (0 and 1 spelled '
+         "Scaled(e,0) / Negated(Constant(0)) / Negated(Constant(-1)) because Expression's operators and replace_selectors fold "
+         'a syntactic 0/1), e*e, e*f, f*e, e+(-f), 0+(-f), e+(-0), e+f, f+e, (-e), (-0), -(Constant), Scaled by 0/1/2/5 and '
+         'nested forms; LookupKind::MixedDeg = (s*a0, m) in (mt0, s_tab*mt1) (input degrees (2,1), table degrees (1,2): degree '
+         '6, the only constraint of that degree in the member); LookupKind::NoZero = a table without a zero row whose filler '
+         'is 5; 4 Shapes members + one with all groups + 4 MixedDeg/NoZero members + 6 (quick) sampled extended members; stats '
+         'add_expression-branch:* = how often each of the 30 branches (incl. reuse of a constant / rotation / calculation) was '
+         'taken by the gate polynomials of the graph lines (WARNING:add_expression-branch-never-hit:* if one is not)',
  'explanation': "Theorems: schedule_agree (verifier replays the prover's transcript operations for every shape/configuration); "
                 'identity_order_agree / horner_sections; compile_correct; quotient_blind_recombine / chunks_recombine; '
-                'perm_product_complete (with perm_rule_rows, perm_last_value / perm_last_complete, sigma_invariant_pairs_perm); '
-                'lookup_permuted_spec / _fail / _no_panic; lookup_product_complete; trash_complete. NEW assembly: '
-                'vanishing_poly_factors, vanish_on_domain_iff_dvd, ycomb_divisible (every y), quotient_identity_everywhere '
-                '(h(x)(x^n-1) = fold of the identity values, every x), honest_verifies_algebraic (for every field with a '
-                'primitive n-th root, every q >= 1, every list of identity polynomials that vanish on every row and have degree '
-                '< n+(n-1)q, every y, every blinding vector of blind_quotient_limbs and every x with x^n != 1: the quotient '
-                'exists, truncate((n-1)q) loses nothing, the chopped commitment Sum x^((n-1)i) h_i opens to exactly the '
-                'expected_h_eval the verifier computes - the model hCheck accepts); lagrange_range_spec, lagrange_interpolation, '
-                'l_evals_spec (l_0, l_last, l_blind = evaluations of the indicator interpolants [i=0], [i=u], [u<i] - the '
-                'convention of the row-level theorems), instance_eval_spec (compute_inner_product over the l_i_range window with '
-                'offset max_rotation - rotation = column polynomial at w^rot x); lookup_identities_vanish_on_domain / '
-                'trash_identity_vanishes_on_domain (row-level completeness lifted to the identity POLYNOMIALS built from '
-                'Lagrange-form vectors and rotations); selector_gate_blinding_rows (selector*G vanishes on the whole domain with '
-                'NO assumption on G on the blinding rows) and unselected_gate_not_divisible (a gate without such a factor has no '
-                'quotient). Tie: the executable schedules are compared event by event with transcripts recorded from the real '
-                'prover and verifier; the number of identities AND the fold itself (expectedHEval on the hooked values, y, xn '
-                'must reproduce the hooked expected_h_eval); lIRange must reproduce EvaluationDomain::l_i_range value by value; '
-                "instanceEval must reproduce every plain-column entry of the verifier's instance_evals (new add-only hook); "
-                'lEvals must equal eval_polynomial(lagrange_to_coeff(indicator)) computed by the real domain code; the Lean '
-                'models permProducts / compressExpressions / permuteExpressionPair / lookupProduct / trashValues are run on the '
-                'real table and must reproduce the vectors logged inside the real prover; the verifier-side row rules (Lean and '
-                'an independent Rust re-implementation) are evaluated on the logged vectors. Oracles: every honest proof '
+                'perm_product_complete (with perm_rule_rows, perm_last_value / perm_last_complete, '
+                'sigma_invariant_pairs_perm); lookup_permuted_spec / _fail / _no_panic; lookup_product_complete; '
+                'trash_complete. NEW assembly: vanishing_poly_factors, vanish_on_domain_iff_dvd, ycomb_divisible (every y), '
+                'quotient_identity_everywhere (h(x)(x^n-1) = fold of the identity values, every x), honest_verifies_algebraic '
+                '(for every field with a primitive n-th root, every q >= 1, every list of identity polynomials that vanish on '
+                'every row and have degree < n+(n-1)q, every y, every blinding vector of blind_quotient_limbs and every x with '
+                'x^n != 1: the quotient exists, truncate((n-1)q) loses nothing, the chopped commitment Sum x^((n-1)i) h_i '
+                'opens to exactly the expected_h_eval the verifier computes - the model hCheck accepts); lagrange_range_spec, '
+                'lagrange_interpolation, l_evals_spec (l_0, l_last, l_blind = evaluations of the indicator interpolants [i=0], '
+                '[i=u], [u<i] - the convention of the row-level theorems), instance_eval_spec (compute_inner_product over the '
+                'l_i_range window with offset max_rotation - rotation = column polynomial at w^rot x); '
+                'lookup_identities_vanish_on_domain / trash_identity_vanishes_on_domain (row-level completeness lifted to the '
+                'identity POLYNOMIALS built from Lagrange-form vectors and rotations); selector_gate_blinding_rows (selector*G '
+                'vanishes on the whole domain with NO assumption on G on the blinding rows) and unselected_gate_not_divisible '
+                '(a gate without such a factor has no quotient). Tie: the executable schedules are compared event by event '
+                'with transcripts recorded from the real prover and verifier; the number of identities AND the fold itself '
+                '(expectedHEval on the hooked values, y, xn must reproduce the hooked expected_h_eval); lIRange must reproduce '
+                'EvaluationDomain::l_i_range value by value; instanceEval must reproduce every plain-column entry of the '
+                "verifier's instance_evals (new add-only hook); lEvals must equal "
+                'eval_polynomial(lagrange_to_coeff(indicator)) computed by the real domain code; the Lean models permProducts '
+                '/ compressExpressions / permuteExpressionPair / lookupProduct / trashValues are run on the real table and '
+                'must reproduce the vectors logged inside the real prover; the verifier-side row rules (Lean and an '
+                'independent Rust re-implementation) are evaluated on the logged vectors. Oracles: every honest proof '
                 'verifies; prover and verifier absorb identical bytes; the logged vectors satisfy every identity on every row; '
                 "EVERY custom-gate polynomial vanishes on EVERY row of the real table (blinding rows with the prover's random "
                 'values included) and every fixed column is zero on the unusable rows (hypotheses of '
-                "selector_gate_blinding_rows, counted); the verifier's instance evaluation equals the column polynomial at w^rot "
-                'x; the honest table satisfies the multiset hypothesis of perm_product_complete; gates without a factor '
+                "selector_gate_blinding_rows, counted); the verifier's instance evaluation equals the column polynomial at "
+                'w^rot x; the honest table satisfies the multiset hypothesis of perm_product_complete; gates without a factor '
                 'vanishing on the unusable rows: the mock checker reports ConstraintPoisoned and the real verifier rejects '
-                '(recorded, counters noselector-gate:*), with a fixed-column factor mock and verifier accept; whenever the mock '
-                'checker accepts, the honest proof must be accepted. The correspondence is deliberately value-level for '
+                '(recorded, counters noselector-gate:*), with a fixed-column factor mock and verifier accept; whenever the '
+                'mock checker accepts, the honest proof must be accepted. The correspondence is deliberately value-level for '
                 'l_i_range / expected_h_eval / instance evaluations (a re-association or a rewrite through omega instead of '
-                'omega_inv does not fire; a changed index, window or dropped term does).',
+                'omega_inv does not fire; a changed index, window or dropped term does). NEW (round 5): '
+                'times_two_compiles_to_double_of_other_operand and constant_shortcuts_both_sides (concrete readings of the '
+                'mirror addExpr for every constant shortcut on BOTH operand positions; the mirror was already '
+                'branch-for-branch, the graph lines now drive every branch: the real compiled graph of the Shapes members must '
+                "equal the Lean compiler's output calculation by calculation, and the honest proofs of these members must "
+                'verify); numerator_fits_quotient_pieces (every identity class - gates, permutation rules with degree-2 '
+                'columns per set, the five lookup rules with the theta-compressed input x table product, trash - has degree <= '
+                'the mirrored ConstraintSystem::degree() and its quotient fits the degree-1 pieces of n-1 coefficients, for '
+                'every constraint system and n; C02.degree_covers_identities, C02.gate_poly_degree_covered = hdeg of '
+                'honest_verifies_algebraic for the gate polynomials, C02.per_column_degree_formula_insufficient, '
+                'C02.quotient_fits_pieces / quotient_overflows_pieces: no slack). A Rust re-implementation of add_expression '
+                'in harness/c01/src/branches.rs is used ONLY to label branches for the statistics (its graph is cross-checked '
+                'with the real one; counter branch-statistics:mirror-differs-from-real-graph). '
+                'perm_identities_vanish_on_domain: under the hypotheses of perm_product_complete the permutation identity '
+                'POLYNOMIALS (column polynomials of the values / sigma labels / honest running products, rotations, delta^c*X, '
+                'Lagrange-basis l_0/l_last/l_blind) vanish on the whole domain - hvanish of honest_verifies_algebraic for the '
+                'permutation class.',
  'trusted_base': ['commitments, pairing check and the hash inside the transcript are abstract in the model (events carry only '
                   'kind/type/tag); honest_verifies_algebraic reads a commitment as the polynomial it commits to (opening '
                   'completeness is C14)',
-                  'the argument theorems are row-level: a polynomial in Lagrange form is identified with its value vector on the '
-                  'domain, l_0/l_last/l_blind with the indicator of row 0 / row u / rows > u, rotation with a cyclic row shift; '
-                  'the lift to polynomials (colPoly / rotPoly / indPoly evaluated at w^i = row value) is proved for the lookup, '
-                  "trash and selector-gated identities, and used as the hypothesis 'vanishes on every row' of "
-                  'honest_verifies_algebraic for the permutation identities and general gates',
+                  'the argument theorems are row-level: a polynomial in Lagrange form is identified with its value vector on '
+                  'the domain, l_0/l_last/l_blind with the indicator of row 0 / row u / rows > u, rotation with a cyclic row '
+                  'shift; the lift to polynomials (colPoly / rotPoly / indPoly evaluated at w^i = row value) is proved for the '
+                  "permutation, lookup, trash and selector-gated identities, and used as the hypothesis 'vanishes on every "
+                  "row' of honest_verifies_algebraic for general gates",
                   'verif-hooks in midnight-proofs (thread-local observers: identity log, argument-vector log, '
                   'instance-evaluation log), ProvingKey::verif_derived_parts (fixed values, sigma labels), '
                   'ProvingKey::verif_custom_gates_graph',
                   "parallelize/rayon chunking inside the prover's loops is modelled by the sequential loop (chunk independence "
-                  'is C12/C17); divide_by_vanishing_poly / extended_to_coeff (coset FFT) are specified as polynomial division by '
-                  'X^n-1 (FFT correctness is C12)'],
- 'assumptions': ['witness satisfies the circuit (by construction of the family; for the stress shapes also checked with the mock '
-                 'checker); KZG completeness is C14',
+                  'is C12/C17); divide_by_vanishing_poly / extended_to_coeff (coset FFT) are specified as polynomial division '
+                  'by X^n-1 (FFT correctness is C12)'],
+ 'assumptions': ['witness satisfies the circuit (by construction of the family; for the stress shapes also checked with the '
+                 'mock checker); KZG completeness is C14',
                  "challenges outside the exceptional set: no denominator beta*sigma+gamma+v resp. (beta+A')(gamma+S') vanishes "
-                 'on a usable row (explicit hypotheses hden of perm_product_complete / lookup_product_complete; counted on every '
-                 'real case: never observed), and x outside the domain (x^n != 1: the verifier would panic on invert().unwrap(); '
-                 'probability n/|F|)',
+                 'on a usable row (explicit hypotheses hden of perm_product_complete / lookup_product_complete; counted on '
+                 'every real case: never observed), and x outside the domain (x^n != 1: the verifier would panic on '
+                 'invert().unwrap(); probability n/|F|)',
                  'Ord of the field is a linear order whose equal elements are identical (hypothesis LinOrd of the lookup '
                  'theorems)',
-                 'every identity polynomial has degree < n + (n-1)*(degree-1) (hypothesis hdeg of honest_verifies_algebraic: '
-                 'what cs.degree() computes; not derived from the gate expressions)'],
- 'level_text': 'Kernel-checked theorems (42 obligations): prover and verifier transcript schedules agree for all '
-               "shapes/configurations (the place where the pinned tree rejected honest proofs); the prover's order of combining "
-               "identities with y equals the verifier's for all shapes; the expression-graph compiler is correct; quotient "
-               'split/blind/recombine; the permutation, lookup and trash arguments the honest prover constructs satisfy every '
-               'verifier identity on every row (for all layouts, all n, all blinding values, every HashMap order, outside an '
-               'explicitly stated exceptional set of challenges); and the assembly honest_verifies_algebraic over any field with '
-               'a primitive n-th root of unity: identities vanishing on every row => quotient exists, its blinded pieces '
-               "recombine to h(x), and the verifier's final evaluation check passes for every y and every x off the domain, with "
-               "l_i_range / l_0 / l_last / l_blind / the verifier's instance evaluations proved equal to the evaluations of the "
-               'interpolating polynomials, and selector-gated custom gates proved to vanish on the blinding rows. Models '
-               'validated against recorded transcripts, compiled graphs, the identity log with its fold, l_i_range, the hooked '
-               'instance evaluations and the argument vectors logged inside the real prover; honest-proof acceptance, rule '
-               'satisfaction and gate satisfaction on all rows (blinding rows included) observed on every generated case',
+                 'hdeg of honest_verifies_algebraic (every identity polynomial has degree < n + (n-1)*(degree-1)) is now '
+                 'PROVED for the gate polynomials (C02.gate_poly_degree_covered) and, in syntactic form (degree counted in '
+                 'units of a column polynomial), for every identity class (numerator_fits_quotient_pieces); the polynomial '
+                 'natDegree bound for the permutation / lookup / trash identity polynomials is not mechanised (their syntactic '
+                 'degrees are)'],
+ 'level_text': 'Kernel-checked theorems (46 obligations): prover and verifier transcript schedules agree for all '
+               "shapes/configurations (the place where the pinned tree rejected honest proofs); the prover's order of "
+               "combining identities with y equals the verifier's for all shapes; the expression-graph compiler is correct; "
+               'quotient split/blind/recombine; the permutation, lookup and trash arguments the honest prover constructs '
+               'satisfy every verifier identity on every row (for all layouts, all n, all blinding values, every HashMap '
+               'order, outside an explicitly stated exceptional set of challenges); and the assembly honest_verifies_algebraic '
+               'over any field with a primitive n-th root of unity: identities vanishing on every row => quotient exists, its '
+               "blinded pieces recombine to h(x), and the verifier's final evaluation check passes for every y and every x off "
+               "the domain, with l_i_range / l_0 / l_last / l_blind / the verifier's instance evaluations proved equal to the "
+               'evaluations of the interpolating polynomials, and selector-gated custom gates proved to vanish on the blinding '
+               'rows. Models validated against recorded transcripts, compiled graphs, the identity log with its fold, '
+               'l_i_range, the hooked instance evaluations and the argument vectors logged inside the real prover; '
+               'honest-proof acceptance, rule satisfaction and gate satisfaction on all rows (blinding rows included) observed '
+               'on every generated case; every branch of add_expression (both operand positions of every constant shortcut) is '
+               'exercised by the compiled-graph comparison and by honest proofs; the degree bookkeeping is proved to cover '
+               'every identity class (numerator_fits_quotient_pieces) and exercised by a mixed-degree lookup that alone '
+               'decides the number of quotient pieces',
  'level_note': 'Trusted: Lean kernel, harness, driver, hooks. Abstract: group/pairing/hash. Still not mechanised: (1) the lift '
-               'from rows to polynomials for the PERMUTATION identities (perm_product_complete is row-level; its polynomial form '
-               'is the hypothesis hvanish of honest_verifies_algebraic - the lookup, trash and selector-gate lifts are proved) '
-               'and for arbitrary gate expressions (Expr.eval over F[X] vs rows); (2) the degree bound hdeg from the gate '
-               'expressions; (3) the probability bound for the exceptional challenge set; (4) lEvals mirrors '
+               'from rows to polynomials is now proved for the PERMUTATION identities too (perm_identities_vanish_on_domain: '
+               "perm_product_complete + C02's permIdPolys lift) in addition to lookup, trash and selector-gated gates; for "
+               'ARBITRARY gate expressions the lift exists only over ZMod p on a concrete table '
+               '(C02.gate_identity_vanishes_on_domain_iff_rows), not over an abstract field, and the assembly still takes the '
+               'LIST of identity polynomials with hvanish as hypothesis (the per-class theorems discharge it class by class; '
+               'the concatenation over a whole constraint system is not stated); (2) the degree bound hdeg is proved for the '
+               'gate polynomials (C02.gate_poly_degree_covered) and syntactically for all classes '
+               '(numerator_fits_quotient_pieces), not yet as natDegree bounds of the permutation / lookup / trash identity '
+               'polynomials; (3) the probability bound for the exceptional challenge set; (4) lEvals mirrors '
                "evaluate_identities' first lines but those are only observed through l_i_range and the identity values (no "
                "direct hook on l_0/l_last/l_blind); the chopped-commitment scalars of as_terms and the prover's "
                'Constructed::evaluate are modelled (choppedScalars, proverHReduce) and proved equal, but observed only through '
@@ -111,5 +153,6 @@ CHECK = {'lean_module': 'MidnightZK.Props.C01',
                'labels which are a permutation of the identity labels is checked on every real case (multiset hypothesis), not '
                'proved (C17/C02). Gates without a factor that vanishes on the unusable rows are outside the property: the mock '
                'checker refuses them (ConstraintPoisoned) and the honest proof is rejected (shown on the real prover; Lean: '
-               'unselected_gate_not_divisible)',
+               'unselected_gate_not_divisible); only the custom-gates graph is hooked: the graphs add_expression builds for '
+               'lookup and trash expressions are observed through proof acceptance only',
  'timeout': {'quick': 1200, 'thorough': 7200, 'search': 1800}}
